@@ -147,6 +147,14 @@ def run(ctx):
                 else:
                     re_.violate(fid, "EOI is not the at_end test", loc, edt.fmt(world.tree(fid)))
     re_.require(2, "EOI functions")
+    # what "end of input" means: nothing of the given input is left to read
+    rn = ctx.rule("R04-END", "at_end() is 'no input left': for every Input impl, in both build profiles, get() reads from the cursor up to exactly "
+                  "end() and at_end() compares the cursor with end() (R08-GET instances) — otherwise a fully matched Span / Position input "
+                  "can be read past its end and rejected")
+    from . import c08
+    fs2 = facts.load("core", "rel")
+    c08.get_rule(rn, fs2["pest_typed"], fs2["pest_typed.rel"])
+    rn.require(8, "instances")
     ctx.assume("what the skip rules match on a given input (e.g. an unterminated comment) is the skip node's own behaviour")
     ctx.assume("which kind the generator passes to rule! for each grammar rule kind is decided under C07/C20 (generator templates)")
     ctx.explanation = ("Path invariants of the full-parse wrappers on their effect decision trees, for every expansion of the rule macros in "
